@@ -5,6 +5,7 @@ import (
 	"fmt"
 	"math/rand"
 	"net"
+	"strings"
 	"time"
 
 	"verifharness/lab"
@@ -18,6 +19,24 @@ import (
 // (listener, key of the whole configuration) pair one TCP exchange or UDP datagram goes to
 // a public echo target with a unique payload. Echo <=> the key's cipher+secret belong to
 // the owner of the listener; attribution is read from /metrics deltas.
+
+// aliasOf returns another spelling of the same socket address (or "" if there is none).
+func aliasOf(addr string) string {
+	h, p, _ := net.SplitHostPort(addr)
+	ip := net.ParseIP(h)
+	if ip == nil {
+		return ""
+	}
+	if v4 := ip.To4(); v4 != nil {
+		return net.JoinHostPort("::ffff:"+v4.String(), p)
+	}
+	var groups []string
+	ip16 := ip.To16()
+	for i := 0; i < 16; i += 2 {
+		groups = append(groups, fmt.Sprintf("%x", int(ip16[i])<<8|int(ip16[i+1])))
+	}
+	return net.JoinHostPort(strings.Join(groups, ":"), p) // the uncompressed form
+}
 
 func genConf(r *rand.Rand, portBase int) ConfSpec {
 	cf := ConfSpec{}
@@ -61,6 +80,13 @@ func genConf(r *rand.Rand, portBase int) ConfSpec {
 			if r.Intn(5) == 0 { // the same cipher and secret twice in one service, under another id
 				id++
 				svc.Keys = append(svc.Keys, KeySpec{ID: fmt.Sprintf("u%d", id), Cipher: key.Cipher, Secret: key.Secret})
+			}
+			if r.Intn(4) == 0 { // the same secret under ANOTHER cipher: a different key, must work as well
+				id++
+				other := pick(r, cipherNames)
+				if other != key.Cipher {
+					svc.Keys = append(svc.Keys, KeySpec{ID: fmt.Sprintf("u%d", id), Cipher: other, Secret: key.Secret})
+				}
 			}
 		}
 		cf.Services = append(cf.Services, svc)
@@ -217,8 +243,27 @@ func c09Run(c *vk.Ctx) {
 	defer utgt.Stop()
 	for ci := 0; ci < c.N(3, 12); ci++ {
 		cf := genConf(r, 10000+ci*40)
-		c.Progress("C09 config %d: %d services, %d legacy keys", ci, len(cf.Services), len(cf.Legacy))
+		// Sometimes a second service claims a listener of the first one under another spelling of
+		// the same address. The two cannot both own one socket: either the configuration is
+		// refused, or - if it loads - the keys must still be separated per listener as configured.
+		aliased := false
+		if ci%3 == 2 && len(cf.Services) >= 2 {
+			l0 := cf.Services[0].Listeners[0]
+			if a := aliasOf(l0.Addr); a != "" {
+				cf.Services[1].Listeners = append(cf.Services[1].Listeners, LnSpec{l0.Type, a})
+				aliased = true
+			}
+		}
+		c.Progress("C09 config %d: %d services, %d legacy keys, aliased=%v", ci, len(cf.Services), len(cf.Legacy), aliased)
 		srv, err := StartServer(c.RunDir, cf, ServerOpts{})
+		if err != nil && aliased {
+			c.Count("aliased_listener_configurations_refused", 1)
+			c.Eval("config|aliased-listener-address|refused")
+			if srv != nil {
+				srv.Stop()
+			}
+			continue
+		}
 		if err != nil {
 			c.Violation("C09/valid-configuration-does-not-start", map[string]any{"config": cf, "err": err.Error(), "log": srv.LogTail(2000)})
 			if srv != nil {
